@@ -16,6 +16,7 @@ mod http_resp;
 mod http_req;
 mod ws_codec;
 mod fuzz_misc;
+mod udp_sys;
 
 use std::collections::HashMap;
 
@@ -143,6 +144,7 @@ fn main() {
         "http-req" => http_req::run(&args),
         "ws-codec" => ws_codec::run(&args),
         "fuzz-misc" => fuzz_misc::run(&args),
+        "udp-sys" => udp_sys::run(&args),
         "deep-json" => fuzz_misc::deep_json(&args),
         "config-refusal" => http_resp::run_refusal(&args),
         "export-child" => export_crash::child(&args),
